@@ -159,4 +159,20 @@ theorem counter_error_witness :
 example : GeneOK (mkGene "chr1" 4 0 { region := (100, 600), isoforms := [⟨"t1", "+", "g1", [(100, 200), (300, 400), (500, 600)]⟩] }).1 := by
   refine ⟨by decide, by decide, ⟨_, _, rfl⟩, ⟨_, _, rfl⟩⟩
 
+/-! ### the delta of a run -/
+
+/-- for every matching strategy of the regenerated preset table an explicit non-negative `--delta` is the delta the
+    run uses — 0 included (exact comparison); without one it is the preset -/
+theorem explicit_delta_respected (s : String) (hs : s ∈ matching_presets.map (·.1)) (d : Int) (hd : 0 ≤ d) :
+    effectiveDelta s (some d) = some d ∧ ∃ p, (s, p) ∈ matching_presets ∧ effectiveDelta s none = some p.delta := by
+  unfold effectiveDelta
+  cases hl : matching_presets.lookup s with
+  | none => exact absurd hs ((lookup_none_iff matching_presets s).mp hl)
+  | some p =>
+    have : ¬ d < 0 := by omega
+    exact ⟨by simp [this], p, lookup_some_mem _ _ _ hl, rfl⟩
+
+example : effectiveDelta "default" (some 0) = some 0 ∧ effectiveDelta "default" none = some 6 ∧
+    effectiveDelta "precise" (some 0) = some 0 ∧ effectiveDelta "loose" (some (-1)) = none := by decide
+
 end IsoVerif.Props.C13Rows
